@@ -393,6 +393,11 @@ def explore_schedules(ctx, h, shard, bound, cold=False):
     reset_switch()
     runner = sched.Runner(bodies, setup=cold_start if cold else reset_switch,
                           teardown=reset_switch)
+    if not cold:
+        # warm library: let caches settle (first / second sighting) so that
+        # every execution of the exploration starts from the same state
+        for _ in range(3):
+            runner.run([])
     witness = h == WITNESS
     seen_outcomes = set()
 
